@@ -459,7 +459,7 @@ def model_cmd(ref):
     return ['bash', '-c', 'ulimit -s unlimited 2>/dev/null || ulimit -s 1000000; exec "$0"', ref]
 
 
-CAUSES = ['str_nul', 'str_nl', 'str_comment', 'str_len', 'str_bytes', 'distinct', 'fn_fields', 'fn_names', 'layout', 'code_decodes',
+CAUSES = ['str_nul', 'str_nl', 'str_comment', 'str_len', 'str_bytes', 'distinct', 'fn_fields', 'fn_names', 'layout', 'code_bytes', 'code_decodes',
           'code_targets', 'code_boundaries', 'code_patches', 'code_f64', 'label_total', 'entry']
 
 
